@@ -609,6 +609,17 @@ func checkC15(c *Ctx) {
 	c15SessionInContext(c)
 	c15IDPresence(c)
 	dispatchUngated(c, "R-dispatch-ungated")
+	c15ErrorWhole(c)
+	{
+		// every request passes the chain with the values the HTTP context functions derived for it
+		var entries []*ssa.Function
+		for _, e := range serverEntries(c) {
+			if strings.HasSuffix(fname(e), "ServeHTTP") {
+				entries = append(entries, e)
+			}
+		}
+		c13CtxFuncApplied(c, c.Reach(entries...))
+	}
 	c05LoopCapture(c, "R-loop-capture") // each registered middleware is the one that runs: wrappers made in a loop do not share the loop variable
 	c15ResultPrivate(c, "R-result-private")
 
